@@ -279,6 +279,28 @@ def run(ctx):
                     if any(isinstance(o, (ast.In, ast.NotIn)) for o in ops) and _is_name_expr(n.left) and \
                             any(isinstance(c, ast.Attribute) and c.attr == "name" for c in n.comparators):
                         bad = "substring test between two names"
+                    # <element of a name column> in <parameter that callers bind to one name>: a substring test
+                    if bad is None and len(ops) == 1 and isinstance(ops[0], (ast.In, ast.NotIn)) and isinstance(n.left, ast.Name) \
+                            and isinstance(n.comparators[0], ast.Name) and fn.param(n.comparators[0].id) is not None:
+                        comp = next((a for a in p.ancestors(n) if isinstance(a, (ast.ListComp, ast.GeneratorExp, ast.SetComp, ast.For))), None)
+                        it = None
+                        if isinstance(comp, ast.For) and n.left.id in au.target_names(comp.target):
+                            it = comp.iter
+                        elif comp is not None and not isinstance(comp, ast.For):
+                            it = next((g.iter for g in comp.generators if n.left.id in au.target_names(g.target)), None)
+                        over_names = it is not None and any(isinstance(x, ast.Subscript) and au.const_str(x.slice) in ("node", "asset") for x in au.walk_local(it))
+                        if over_names:
+                            pname = n.comparators[0].id
+                            single = False
+                            for f2 in p.all_functions():
+                                for c2 in p.calls_in(f2):
+                                    if au.method_name(c2) == fn.name or (isinstance(c2.func, ast.Name) and c2.func.id == fn.name):
+                                        a2 = au.kwarg(c2, pname)
+                                        if a2 is not None and ((isinstance(a2, ast.Subscript) and au.const_num(a2.slice) is not None and "name" in au.U(a2.value))
+                                                               or (isinstance(a2, ast.Attribute) and a2.attr == "name")):
+                                            single = True
+                            if single:
+                                bad = "`%s in %s`: callers pass one name for %s, so this is a substring test between two names" % (n.left.id, pname, pname)
                     # 'literal' in <label>, where the label runs over the columns of a frame: mapping columns embed asset names
                     # (index_internal_assets_<name>), so a substring match depends on how assets are called; a prefix is safe
                     if bad is None and len(ops) == 1 and isinstance(ops[0], (ast.In, ast.NotIn)) and au.const_str(n.left) is not None \
